@@ -86,7 +86,15 @@ func genMarkupLineAt(tp *Tape, id string, allowFail, idLast bool) (string, bool)
 				`[ordinal value=3 one="%st" two="%nd" few="%rd" other="%th" /]`,
 				`[nomarkup][x] raw [/b][/nomarkup]`,
 				`[select value=zz a="A" /]`,
-			}[tp.Int(0, 5, "repl")])
+				// the open forms, closed by [/] or by name, succeeding and failing
+				`[select value=b a="A" b="B"]x[/]`,
+				`[select value=zz a="A"]x[/]`,
+				`[plural value=3 one="cat" other="% cats"]n[/plural]`,
+				`[plural value=x one="a"]y[/]`,
+				`[ordinal value=2 one="%st" two="%nd" few="%rd" other="%th"]o[/]`,
+				`[ordinal one="%st"]z[/]`,
+				`[nomarkup]n[/]`,
+			}[tp.Int(0, 12, "repl")])
 		case 7:
 			sb.WriteString([]string{": ", ":", " : "}[tp.Int(0, 2, "colon")])
 		}
